@@ -9,6 +9,9 @@ Legs:
                  model (ocaml/nsfix_driver.ml) predicts the complete serialized output (prefixes, order
                  of attributes and declarations, invented ns<N>); compared byte for byte with the output
                  of the rebuilt library (vlib/xsltrun.py)
+  variants       translator/gen_nsfix.py reads off the tree whether the repairs of K17, KN6, KN10 (model flags in
+                 GenNsfix.v) and KN7 (generator: re-binding an excluded prefix is then generated, oracle only,
+                 residual finding KN11) are present; nothing has to be swapped when they are committed
   oracle         the library's output parsed by expat with namespace processing (rejects unbound
                  prefixes, duplicate expanded attribute names, reserved prefixes); every element and
                  attribute compared with the expanded name the GENERATOR intended (computed here from the
@@ -51,6 +54,19 @@ def unique_prefix():
 
 
 GENPFX = unique_prefix()
+
+
+def kn7_repaired():
+    """NamespacesHandler::getNamespace looks at the element's own declarations before the inherited excluded
+    prefixes (fixes/C14/11-KN7): then re-binding an excluded prefix is an ordinary case and is generated"""
+    try:
+        src = open(os.path.join(os.environ.get("VERIF_REPO", "/repo"), "src/xalanc/XSLT/NamespacesHandler.cpp"), encoding="utf-8", errors="replace").read()
+        return "theURI=findNamespace(m_namespaceDeclarations,thePrefix)" in re.sub(r"\s+", "", src)
+    except OSError:
+        return False
+
+
+KN7_FIXED = kn7_repaired()
 
 
 class Names:
@@ -237,7 +253,7 @@ class Sheet:
     def ouri(self, u):
         return "-" if u is None else str(uri_num(u))
 
-    def emit_ops(self, n, scope, excl):
+    def emit_ops(self, n, scope, excl, inset=False):
         N = self.names
         k = n["k"]
         if k == "text":
@@ -246,7 +262,7 @@ class Sheet:
         sc = list(n.get("ns", [])) + scope
         if k == "attr":
             p, _ = split(n["name"])
-            self.ops.append("A|%s|%s|%s|%d" % (N.qname(n["name"]), self.ouri(n["nsattr"]),
+            self.ops.append("%s|%s|%s|%s|%d" % ("SA" if inset else "A", N.qname(n["name"]), self.ouri(n["nsattr"]),
                                                self.ouri(lookup(sc, p) if p and p != "xml" else None), n["val"]))
             return
         if k == "elem":
@@ -257,7 +273,7 @@ class Sheet:
             ex2 = excl
             # use-attribute-sets: the sets' xsl:attribute instructions run before the children
             for a in self.set_attrs(n.get("uas", [])):
-                self.emit_ops(a, self.top_scope, [])
+                self.emit_ops(a, self.top_scope, [], inset=True)
         else:
             ex2 = excl + [lookup(sc, "" if p == "#default" else p) for p in n.get("excl", [])]
             ins = "+".join("%s=%d" % (N.pfx(p), uri_num(u)) for p, u in sc) or "_"
@@ -267,7 +283,7 @@ class Sheet:
                 # declarations, then the attribute sets, then the literal attributes
                 self.ops.append("LO|" + head)
                 for a in self.set_attrs(n["uas"]):
-                    self.emit_ops(a, self.top_scope, [])
+                    self.emit_ops(a, self.top_scope, [], inset=True)
                 self.ops.append("LA|%s|%s" % (ins, ats))
             else:
                 self.ops.append("L|" + head)
@@ -460,7 +476,7 @@ def compare_trees(want, got, path, alias_sources):
             probs.append("%s: element is {%s}%s, the instruction asked for {%s}%s" % (here, g["name"][0], g["name"][1], w["name"][0], w["name"][1]))
         if w["attrs"] != g["attrs"]:
             probs.append("%s: attributes are %s, the instructions asked for %s" % (
-                here, sorted(g["attrs"].items()), sorted(w["attrs"].items())))
+                here, sorted(g["attrs"].items(), key=str), sorted(w["attrs"].items(), key=str)))
         used = set([g["name"][0]] + [a[0] for a in g["attrs"]])
         for pf, u in g["decls"]:
             if w["lre"] and u in w["excl"] and u not in used:
@@ -489,7 +505,7 @@ def oracle(sheet, out_bytes):
 # ---------------------------------------------------------------------------------------------
 # generators (every choice from ctx.rng)
 
-PREFIXES = ["p", "q", "r", GENPFX + "0", GENPFX + "1", "w"]
+PREFIXES = ["p", "q", "r", GENPFX + "0", GENPFX + "2", "w"]   # not ns1: "ns1" is a proper prefix of an invented ns1N (loose comparison in ElemAttribute)
 LOCALS = ["a", "b", "c", "e", "f"]
 UPOOL = ["u4", "u5", "u6", "u7"]
 
@@ -502,6 +518,7 @@ class TreeGen:
         # "xml" and "xmlq" never in one sheet: ElemAttribute compares only the first n characters of the found prefix
         self.weird_pool = r.choice([["xml", "xmlns"], ["xmlns", "xmlq"]])
         self.setnames = []            # names of the attribute sets of this sheet
+        self.rebound = False          # an excluded prefix was re-bound inside the scope of the exclusion
 
     def pfx(self):
         r = self.r
@@ -519,8 +536,10 @@ class TreeGen:
         out = []
         for _ in range(r.choice([0, 0, 1, 1, 2][:maxn + 3])):
             p = r.choice(PREFIXES + ([""] if allow_default else []))
-            if p in [x for x, _ in out] or p in frozen:
+            if p in [x for x, _ in out] or (p in frozen and (not KN7_FIXED or self.style == "weird")):
                 continue
+            if p in frozen:
+                self.rebound = True      # class of KN11 (and of KN7 before its repair)
             u = self.uri()
             if p == "" and r.random() < 0.25:
                 u = ""
@@ -645,6 +664,8 @@ class TreeGen:
         sh = {"ns": ns, "excl": excl, "body": body}
         if asets:
             sh["asets"] = asets
+        if self.rebound:
+            sh["kn11"] = True
         return sh
 
 
@@ -1019,6 +1040,12 @@ def evaluate(ctx, cases, exe, model, known):
             # the model's own verdict must agree with the oracle's on hazard-free programs (theorem tie)
             if not hz and not m["wf"]:
                 corr.append({"id": c["id"], "sheet": c["sheet"], "impl": body, "model": "guard holds but the model's events are not well-formed (contradicts result_ns_wellformed_partial)"})
+        if probs and c.get("kn11"):
+            other = [x for x in probs if "declares excluded namespace" not in x]
+            if other:
+                probs = other
+            else:
+                c["force_known"] = "KN11"
         if probs:
             keys = sorted(set(HAZARD_KEY[h] for h in hz if h in HAZARD_KEY)) + ([c["force_known"]] if c.get("force_known") else [])
             kn = [k for k in keys if k in known]
@@ -1060,10 +1087,10 @@ def run(ctx):
     cases = []
     expect_known = {}
     for name, key, sh in corpus_trees():
-        cases.append(make_case("c_" + name, sh, "corpus", modelled=(key != "KN7")))
+        cases.append(make_case("c_" + name, sh, "corpus", modelled=(key != "KN7" or KN7_FIXED)))
         if key:
             expect_known["c_" + name] = key
-            if key == "KN7":       # class decided syntactically by the generator (never generated), not by a model hazard
+            if key == "KN7" and not KN7_FIXED:   # class decided syntactically by the generator (never generated), not by a model hazard
                 cases[-1]["force_known"] = key
     # stored replays that are plain stylesheets (minimised past failures)
     for name, text in load_corpus():
@@ -1083,7 +1110,14 @@ def run(ctx):
         for i in range(n):
             style = ctx.rng.choice(["plain", "plain", "plain", "weird", "late"])
             sh = TreeGen(ctx.rng, style).sheet()
-            out.append(make_case("%s%d" % (tag, i), sh, "gen:" + style))
+            if sh.get("kn11"):
+                # an excluded prefix is re-bound: the expanded names must be right (KN7 repaired), but which
+                # namespaces count as excluded below that point is finding KN11; not compared with the model
+                c = make_case("%s%d" % (tag, i), sh, "gen:rebound-excluded", modelled=False)
+                c["kn11"] = True
+                out.append(c)
+            else:
+                out.append(make_case("%s%d" % (tag, i), sh, "gen:" + style))
         for i in range(n // 10):
             sh, want = gen_oracle_only(ctx.rng)
             out.append(make_case("%so%d" % (tag, i), sh, "oracle-only", want=want, modelled=False))
